@@ -161,6 +161,16 @@ def c_consume(it, fv, args, kwargs, node):
 
 def install_state_contracts(it, hf=True):
     install_env(it)
+
+    # frame: exception objects that came from the operation (or are remembered in the state) are never modified -
+    # "raises that last attempt's own exception object with its original traceback" (C04)
+    def exc_frame(it_, o, attr, mode, node):
+        if mode == "write" and o.cls_t is not None and o.cls is None and o.tag != "raised-by-code":
+            fn = it_.frames[-1].func.key if it_.frames and it_.frames[-1].func else "?"
+            it_.path.oblige(f"{fn}/C04/frame/operation-exception-object-not-modified/{attr}", False, prop=None,
+                            detail={"line": getattr(node, "lineno", None)})
+
+    it.field_hooks.append(exc_frame)
     it.contracts[K_EMIT] = c_emit
     it.contracts[K_ELAPSED] = c_elapsed
     it.contracts[K_CONSUME] = c_consume
